@@ -380,6 +380,9 @@ def opt_val(t, a, p, litp, bind=None):
         return ("Some", opt_val(kids[0].terms.ret, a, p, litp, bind=x[1]))
     if mir.is_call(t, "get") and len(t[2]) == 2 and mir.is_call(strip(t[2][1]), "label"):
         return ("None",) if a is None else ("Some", a)
+    if t[0] == "call" and t[1].name in ("lit_implied", "lit_neg_implied") and "PartialModel" in t[1].key() and len(t[2]) == 2:
+        # the model's own literal queries (their bodies are checked against these definitions by PM)
+        return int(a is not None and ((a == p) == (t[1].name == "lit_implied")))
     if t[0] == "agg" and str(t[2]).endswith("Option"):
         return ("None",) if t[3] == "None" else ("Some", opt_val(t[4][0], a, p, litp, bind))
     if t[0] == "un" and t[1] == "Not":
@@ -495,6 +498,12 @@ def predicate_form(prog, fn, total=False):
             if cs.callee.name == "get" and "PartialModel" in cs.callee.key() and len(cs.args) == 2 and \
                     mir.is_call(strip(cs.args[1]), "label") and strip(strip(cs.args[1])[2][0])[0] == "param":
                 cand.append((g, strip(strip(cs.args[1])[2][0])))
+            if cs.callee.name in ("lit_implied", "lit_neg_implied") and "PartialModel" in cs.callee.key() and len(cs.args) == 2:
+                a1 = strip(cs.args[1])
+                while isinstance(a1, tuple) and a1 and a1[0] in ("deref", "ref"):
+                    a1 = strip(a1[1])
+                if a1[0] == "param":
+                    cand.append((g, a1))
             if total and cs.callee.name == "index" and len(cs.args) == 2 and "label(arg2)" in show(cs.args[1]):
                 cand.append((g, ("param", 2)))
     used = [c for h in [fn] + kids for c in h.terms.calls if c.callee.name in ("any", "all", "find", "position")]
